@@ -263,3 +263,36 @@ Proof.
   - exact x_fork_before.
   - exact x_fork_after.
 Qed.
+
+(* ---- on the pruned store xs7 (after round [0,2)): the reader is no longer silent at a new version (the premise of
+   commit_preserves_roots / commit_reads_back fails), while the premises of their any-store forms hold ---- *)
+Example x_old_freshness_fails : sget nat xs7 0 [1%nat] v4 <> None.
+Proof. vm_compute. discriminate. Qed.
+
+Example x_commit_any_premise : forall q w b, Reach nat (sget nat xs7 0) [] (SRef v3) q w b -> w <> v4.
+Proof.
+  intros q w b R.
+  apply (followed_not_fresh nat xs7 0 [(v3, xt3); (v2, xt2)] 2%N v4 (History_Inv nat 0 xs7 _ 2%N xH7)) with (vt := (v3, xt3)) (q := q) (b := b).
+  - fresh_tac.
+  - cbn; lia.
+  - left; reflexivity.
+  - exact R.
+Qed.
+
+Example x_commit_after_prune : open_root nat 10 xs8 0 v3 = Some xt3 /\ Res nat (sget nat xs8 0) [] (SRef v4) xt4.
+Proof.
+  split; [vm_compute; reflexivity|].
+  apply (history_roots_resolve nat 0 xs8 _ 2%N v4 xt4 xH8). left; reflexivity.
+Qed.
+
+(* the conditional theorem's premise on the first round: every node root v2 follows survives *)
+Example x_survives : ResC nat (survives nat xs6 xcps 0 2 0) (sget nat xs6 0) [] (SRef v2) xt2.
+Proof.
+  unfold xt2, lf.
+  repeat first
+    [ apply ResC_nil | apply ResC_val | apply ResC_short | apply ResC_full | apply ResCL_nil | apply ResCL_cons
+    | eapply ResC_ref;
+      [ vm_compute; reflexivity
+      | first [ left; split; vm_compute; reflexivity | right; split; [|split]; vm_compute; reflexivity ]
+      | ] ].
+Qed.
